@@ -1,21 +1,45 @@
 ------------------------------ MODULE MetaGen ------------------------------
 (***************************************************************************)
-(* The scenario space of C19: build families x path styles x minify x      *)
-(* format x source maps x legal comments, enumerated by TLC and built with  *)
-(* the real api.Build (metafile on).  The specification predicts for each   *)
-(* scenario whether final paths have to be substituted into an output       *)
-(* (references between emitted files) and whether one output has several    *)
-(* contributing inputs; both are compared with what the real metafile says  *)
-(* (a disagreement is SPEC-DRIFT, never a verdict).                         *)
+(* The scenario space of C19, enumerated by TLC and built with the real    *)
+(* api.Build (metafile on).  Three groups:                                  *)
+(*                                                                         *)
+(*  base  build families x path styles x minify level x format x source     *)
+(*        maps x legal comments                                             *)
+(*  mix   ONE application whose chunks mix every kind of reference to       *)
+(*        another emitted file (file-loader assets, dynamic-import chunks,  *)
+(*        a statically shared chunk, CSS url() assets) with >= 3 inputs per *)
+(*        chunk, x number of assets x number of lazy pages x name lengths x *)
+(*        import order (decides the numbering of files and chunks) x path   *)
+(*        templates (directories for chunks / assets / both, public path)   *)
+(*  res   resolution-dependent input paths: one mechanism per scenario      *)
+(*        (main/module/browser fields and the dual-package rule, browser    *)
+(*        map incl. disabled modules, tsconfig paths, alias, symlinked      *)
+(*        package with/without preserveSymlinks, path spellings,            *)
+(*        sideEffects:false, package.json "imports" to an external, import  *)
+(*        attributes, a resolve/load plugin with a virtual namespace) x     *)
+(*        platform x main-field order x how the package is referenced       *)
+(*        (import / require / both / dynamic import + require)              *)
+(*                                                                         *)
+(* The specification predicts for each scenario what the account must show: *)
+(* whether final paths are substituted, whether one output has several      *)
+(* contributing inputs, which reference kinds meet in one chunk, and (res)  *)
+(* the file every reference under test resolves to.  Predictions are        *)
+(* compared with the real metafile as SPEC-DRIFT (never a verdict); the     *)
+(* verdicts come from MetaState.tla evaluated on the record of the build.   *)
 (***************************************************************************)
 EXTENDS Integers, Sequences, FiniteSets, TLC, Json
 
 CONSTANTS SMs, Legals
 
+Minis == {"none", "ids", "all"}   \* ids: identifiers + syntax minified, white space (and the path comments) kept
+
+(***************************************************************************)
+(* base                                                                    *)
+(***************************************************************************)
 Families == {"js", "splitting", "css", "jscss", "file", "copy", "externals", "glob", "inject", "stdin"}
 
 Scenarios ==
-  [ family : Families, paths : {"flat", "nested", "public"}, minify : BOOLEAN,
+  [ family : Families, paths : {"flat", "nested", "public"}, mini : Minis,
     format : {"esm", "cjs", "iife"}, sm : SMs, legal : Legals ]
 
 \* code splitting needs ESM; a CSS entry point has no module format
@@ -32,15 +56,91 @@ Substitutes(s) ==
 \* does some output have two or more contributing inputs?
 MultiInput(s) == s.family # "copy" /\ ~(s.family = "glob" /\ Splitting(s))
 
+(***************************************************************************)
+(* mix                                                                     *)
+(***************************************************************************)
+MixScenarios ==
+  [ family : {"mix"}, assets : 1..3, lazy : 1..3, names : {"short", "long", "mixed"},
+    css : BOOLEAN, shared : BOOLEAN, order : {"assetsFirst", "pagesFirst"},
+    paths : {"flat", "nested", "public", "deepchunks", "deepassets"}, mini : Minis ]
+
+\* the kinds of placeholders that meet in the entry chunk of the application
+MixKinds(s) == {"asset", "chunk"} \cup (IF s.css THEN {"cssasset"} ELSE {})
+\* both index spaces are populated beyond the first few numbers, so that equal
+\* numbers occur in both (files: runtime, entries, then imports in order;
+\* chunks: entry points, lazy pages, shared chunks)
+MixCoincidencePossible(s) == s.assets + s.lazy >= 3
+
+(***************************************************************************)
+(* res                                                                     *)
+(***************************************************************************)
+Mechs == {"dual", "browsermap", "tspaths", "alias", "symlink", "spelling", "sidefx", "pkgimports", "jsonattr", "plugin"}
+Hows == {"import", "require", "both", "dynboth"}
+
+ResScenarios ==
+  [ family : {"res"}, mech : Mechs, platform : {"browser", "node"}, mf : {"default", "mainmodule", "modulemain"},
+    how : Hows, preserve : BOOLEAN, format : {"esm", "cjs", "iife"}, mini : {"none", "all"} ]
+
+ResSensible(s) ==
+  /\ s.mf # "default" => s.mech = "dual"
+  /\ s.preserve => s.mech = "symlink"
+
+\* the kinds of reference to the specifier under test
+RefKinds(s) ==
+  CASE s.how = "import" -> {"import-statement"}
+    [] s.how = "require" -> {"require-call"}
+    [] s.how = "both" -> {"import-statement", "require-call"}
+    [] s.how = "dynboth" -> {"dynamic-import", "require-call"}
+
+\* the file a reference of kind k to the specifier under test resolves to
+\* (path relative to the working directory, as the metafile spells it)
+Target(s, k) ==
+  CASE s.mech = "dual" ->
+         \* main-field order: explicit order wins; the default order of the
+         \* browser platform is browser, module, main with the dual-package
+         \* rule (module for import, main for require, and main for everybody
+         \* as soon as somebody requires the package); node: main first
+         (IF s.mf = "mainmodule" THEN "node_modules/pkg/lib/main.js"
+          ELSE IF s.mf = "modulemain" THEN "node_modules/pkg/esm/module.js"
+          ELSE IF s.platform = "node" THEN "node_modules/pkg/lib/main.js"
+          ELSE IF "require-call" \in RefKinds(s) THEN "node_modules/pkg/lib/main.js"
+          ELSE "node_modules/pkg/esm/module.js")
+    [] s.mech = "browsermap" -> (IF s.platform = "browser" THEN "node_modules/bpkg/br/main.js" ELSE "node_modules/bpkg/lib/main.js")
+    [] s.mech = "tspaths" -> "src/mapped/thing.js"
+    [] s.mech = "alias" -> "node_modules/realpkg/index.js"
+    [] s.mech = "symlink" -> (IF s.preserve THEN "node_modules/linked/index.js" ELSE "packages/linked-real/index.js")
+    [] s.mech = "spelling" -> "src/lib2/thing.js"
+    [] s.mech = "sidefx" -> "node_modules/pure/index.js"
+    [] s.mech = "pkgimports" -> "src/internal.js"
+    [] s.mech = "jsonattr" -> "src/data.json"
+    [] s.mech = "plugin" -> "virt:thing"
+
+\* inputs of the bundle without any code in the output (removed because of sideEffects:false)
+Empty(s) == IF s.mech = "sidefx" THEN {"node_modules/pure-unused/index.js"} ELSE {}
+\* inputs that the browser map disables: listed as "(disabled):<path>" with size 0
+Disabled(s) == IF s.mech = "browsermap" /\ s.platform = "browser" THEN {"(disabled):node_modules/bpkg/lib/off.js"} ELSE {}
+
+Expect(s) == [k \in RefKinds(s) |-> Target(s, k)]
+
 VARIABLE x
 Init == x = 0
 Next == x' = x
 Spec == Init /\ [][Next]_x
 
 Export ==
-  \A s \in Scenarios :
-     Sensible(s) => PrintT(<<"CASE", ToJson(s @@ [splitting |-> Splitting(s), substitutes |-> Substitutes(s), multi |-> MultiInput(s)])>>)
+  /\ \A s \in Scenarios :
+       Sensible(s) => PrintT(<<"CASE", ToJson(s @@ [minify |-> s.mini = "all", splitting |-> Splitting(s), substitutes |-> Substitutes(s), multi |-> MultiInput(s)])>>)
+  /\ \A s \in MixScenarios :
+       PrintT(<<"CASE", ToJson(s @@ [minify |-> s.mini = "all", format |-> "esm", sm |-> "none", legal |-> "inline", splitting |-> TRUE, substitutes |-> TRUE, multi |-> TRUE,
+                                      kinds |-> MixKinds(s), coincide |-> MixCoincidencePossible(s)])>>)
+  /\ \A s \in ResScenarios :
+       ResSensible(s) => PrintT(<<"CASE", ToJson(s @@ [minify |-> s.mini = "all", paths |-> "flat", sm |-> "none", legal |-> "inline", splitting |-> FALSE, substitutes |-> FALSE, multi |-> TRUE,
+                                                      expect |-> Expect(s), empty |-> Empty(s), disabled |-> Disabled(s)])>>)
 
 ASSUME \E s \in Scenarios : Sensible(s) /\ Substitutes(s) /\ s.paths = "public"
+\* the scenario space contains an output in which an asset placeholder and a
+\* chunk placeholder meet, and a package that is both imported and required
+ASSUME \E s \in MixScenarios : {"asset", "chunk", "cssasset"} \subseteq MixKinds(s) /\ MixCoincidencePossible(s)
+ASSUME \E s \in ResScenarios : ResSensible(s) /\ s.mech = "dual" /\ Target(s, "import-statement") # Target([s EXCEPT !.how = "import"], "import-statement")
 ASSUME Export
 =============================================================================
